@@ -4,11 +4,14 @@
    Spec:  coq/Spec/MergeSpec.v (join_pairs, gather_col, merge_spec), Spec/JoinSpec.v, Spec/MapStreamSpec.v. *)
 From Coq Require Import ZArith List Lia Bool.
 From EV Require Import Res Arr Join JoinSpec JoinBase JoinIface JoinDriver JoinMain MapStream MapStreamSpec
-  MapIndexedDriver Merge MergeSpec MergeBase MergeOrdered MergeMaps MergeTop MergeRows MergeRefuted.
+  MapIndexedDriver Merge MergeSpec MergeBase MergeOrdered MergeMaps MergeTop MergeRows MergeRefuted
+  JoinAll MergeAll MergeCopy MergeShape.
 Import ListNotations.
 Open Scope Z_scope.
 
 (* ---- the streamed path: FULL modulo the C03 statement of the selected generator ----------------
+   (kept as first delivered; SUPERSEDED by ordered_merge_total_all / ordered_merge_correct_all below, where the
+   Section hypothesis C03_selected is discharged by C03's JoinAll.streamed_total for all eight generators)
    For every how in {left,right,inner}, every pair of sorted key columns, every (truthful or not yet
    used) unique-hint pair, all column lists, all sizes and chunk sizes (join chunk size cs, map-stream
    chunk size mcs >= 1, value factor vf >= 0, chunked_copy size ccs >= 1): if the generator the repaired
@@ -66,6 +69,155 @@ Example ordered_merge_both_unique_nonvacuous :
          ([105;112], CFix [0] [0] [[1];[2];[3];[4]]) ].
 Proof. vm_compute. reflexivity. Qed.
 
+(* ==== extension E4 (1): NO hypothesis about C03 left — every how in {left,right,inner} x every unique-hint pair ====
+   C03_selected is now the lemma MergeAll.C03_selected_all (= JoinAll.streamed_total on the generator and the (a,b)
+   argument order the repaired table selects).  C02's preconditions in the caller's vocabulary:
+     hints_truthful lu ru lk rk   both key columns sorted (the two ordered hints) and strictly sorted where a unique
+                                  hint is given; equivalent to C03's kind_pre of the selected generator
+                                  (hints_are_kind_pre);
+     chunks_ok k cs A B           C03's chunk-size precondition (every window of cs keys of a trimmed side holds two
+                                  different adjacent keys) — or the weaker ~LongRun;
+     nbd A B                      no key repeated on both sides (F-C02f); follows from any truthful unique hint. *)
+Theorem hints_are_kind_pre : forall how lu ru lk rk,
+  hints_truthful lu ru lk rk <->
+  kind_pre (v_kind (sel_variant how lu ru)) (sel_a how lk rk) (sel_b how lk rk).
+Proof. exact sel_kind_pre. Qed.
+Print Assumptions hints_are_kind_pre.
+
+(* total form: the destination of the relational join, or the clear ValueError and then a long run exists *)
+Theorem ordered_merge_total_all :
+  forall how lu ru lk rk lcols rcols lsuf rsuf cs mcs vf ccs,
+  how = 0 \/ how = 1 \/ how = 2 -> 1 <= cs -> 1 <= mcs -> 0 <= vf -> 1 <= ccs ->
+  hints_truthful lu ru lk rk ->
+  nbd (sel_a how lk rk) (sel_b how lk rk) ->
+  frame_ok (len lk) lcols (mcs * vf) -> frame_ok (len rk) rcols (mcs * vf) ->
+  NoDup (frame_names (ordered_dest how lu ru lk rk lcols rcols lsuf rsuf)) ->
+  ordered_merge MFixed how lu ru lk rk lcols rcols lsuf rsuf (len lk) (len rk) cs mcs vf ccs
+    = Ok (ordered_dest how lu ru lk rk lcols rcols lsuf rsuf) \/
+  (ordered_merge MFixed how lu ru lk rk lcols rcols lsuf rsuf (len lk) (len rk) cs mcs vf ccs = Raise E_ValueError /\
+   LongRun (v_kind (sel_variant how lu ru)) (v_left (sel_variant how lu ru)) (sel_a how lk rk) (sel_b how lk rk) cs).
+Proof. exact MergeAll.ordered_merge_total_all. Qed.
+Print Assumptions ordered_merge_total_all.
+
+Theorem ordered_merge_correct_all :
+  forall how lu ru lk rk lcols rcols lsuf rsuf cs mcs vf ccs,
+  how = 0 \/ how = 1 \/ how = 2 -> 1 <= cs -> 1 <= mcs -> 0 <= vf -> 1 <= ccs ->
+  hints_truthful lu ru lk rk ->
+  nbd (sel_a how lk rk) (sel_b how lk rk) ->
+  frame_ok (len lk) lcols (mcs * vf) -> frame_ok (len rk) rcols (mcs * vf) ->
+  NoDup (frame_names (ordered_dest how lu ru lk rk lcols rcols lsuf rsuf)) ->
+  chunks_ok (v_kind (sel_variant how lu ru)) cs (sel_a how lk rk) (sel_b how lk rk) ->
+  ordered_merge MFixed how lu ru lk rk lcols rcols lsuf rsuf (len lk) (len rk) cs mcs vf ccs
+  = Ok (ordered_dest how lu ru lk rk lcols rcols lsuf rsuf).
+Proof. exact MergeAll.ordered_merge_correct_all. Qed.
+Print Assumptions ordered_merge_correct_all.
+
+(* the same under the weakest form of the chunk-size precondition (the one ordered_merge_correct assumed) *)
+Theorem ordered_merge_correct_no_long_run :
+  forall how lu ru lk rk lcols rcols lsuf rsuf cs mcs vf ccs,
+  how = 0 \/ how = 1 \/ how = 2 -> 1 <= cs -> 1 <= mcs -> 0 <= vf -> 1 <= ccs ->
+  hints_truthful lu ru lk rk ->
+  nbd (sel_a how lk rk) (sel_b how lk rk) ->
+  frame_ok (len lk) lcols (mcs * vf) -> frame_ok (len rk) rcols (mcs * vf) ->
+  NoDup (frame_names (ordered_dest how lu ru lk rk lcols rcols lsuf rsuf)) ->
+  ~ LongRun (v_kind (sel_variant how lu ru)) (v_left (sel_variant how lu ru)) (sel_a how lk rk) (sel_b how lk rk) cs ->
+  ordered_merge MFixed how lu ru lk rk lcols rcols lsuf rsuf (len lk) (len rk) cs mcs vf ccs
+  = Ok (ordered_dest how lu ru lk rk lcols rcols lsuf rsuf).
+Proof. exact MergeAll.ordered_merge_correct_nolong. Qed.
+Print Assumptions ordered_merge_correct_no_long_run.
+
+(* any truthful unique hint (left, right or both): nbd is discharged too *)
+Theorem ordered_merge_unique_hint_correct :
+  forall how lu ru lk rk lcols rcols lsuf rsuf cs mcs vf ccs,
+  how = 0 \/ how = 1 \/ how = 2 -> 1 <= cs -> 1 <= mcs -> 0 <= vf -> 1 <= ccs ->
+  lu = true \/ ru = true -> hints_truthful lu ru lk rk ->
+  chunks_ok (v_kind (sel_variant how lu ru)) cs (sel_a how lk rk) (sel_b how lk rk) ->
+  frame_ok (len lk) lcols (mcs * vf) -> frame_ok (len rk) rcols (mcs * vf) ->
+  NoDup (frame_names (ordered_dest how lu ru lk rk lcols rcols lsuf rsuf)) ->
+  ordered_merge MFixed how lu ru lk rk lcols rcols lsuf rsuf (len lk) (len rk) cs mcs vf ccs
+  = Ok (ordered_dest how lu ru lk rk lcols rcols lsuf rsuf).
+Proof. exact MergeAll.ordered_merge_unique_hint_correct. Qed.
+Print Assumptions ordered_merge_unique_hint_correct.
+
+(* on truthful hints _ordered_merge never reads out of bounds, always terminates, and the only exception it can
+   raise is the ValueError of a chunk that is one run *)
+Theorem ordered_merge_raises_only_value_error :
+  forall how lu ru lk rk lcols rcols lsuf rsuf cs mcs vf ccs,
+  how = 0 \/ how = 1 \/ how = 2 -> 1 <= cs -> 1 <= mcs -> 0 <= vf -> 1 <= ccs ->
+  hints_truthful lu ru lk rk ->
+  nbd (sel_a how lk rk) (sel_b how lk rk) ->
+  frame_ok (len lk) lcols (mcs * vf) -> frame_ok (len rk) rcols (mcs * vf) ->
+  NoDup (frame_names (ordered_dest how lu ru lk rk lcols rcols lsuf rsuf)) ->
+  forall c, ordered_merge MFixed how lu ru lk rk lcols rcols lsuf rsuf (len lk) (len rk) cs mcs vf ccs = Raise c ->
+  c = E_ValueError /\ ~ chunks_ok (v_kind (sel_variant how lu ru)) cs (sel_a how lk rk) (sel_b how lk rk).
+Proof. exact MergeAll.ordered_merge_raises_only_value_error. Qed.
+Print Assumptions ordered_merge_raises_only_value_error.
+
+Theorem ordered_merge_no_oob :
+  forall how lu ru lk rk lcols rcols lsuf rsuf cs mcs vf ccs,
+  how = 0 \/ how = 1 \/ how = 2 -> 1 <= cs -> 1 <= mcs -> 0 <= vf -> 1 <= ccs ->
+  hints_truthful lu ru lk rk ->
+  nbd (sel_a how lk rk) (sel_b how lk rk) ->
+  frame_ok (len lk) lcols (mcs * vf) -> frame_ok (len rk) rcols (mcs * vf) ->
+  NoDup (frame_names (ordered_dest how lu ru lk rk lcols rcols lsuf rsuf)) ->
+  forall site, ordered_merge MFixed how lu ru lk rk lcols rcols lsuf rsuf (len lk) (len rk) cs mcs vf ccs <> OOB site.
+Proof. exact MergeAll.ordered_merge_no_oob. Qed.
+Print Assumptions ordered_merge_no_oob.
+
+Theorem ordered_merge_terminates :
+  forall how lu ru lk rk lcols rcols lsuf rsuf cs mcs vf ccs,
+  how = 0 \/ how = 1 \/ how = 2 -> 1 <= cs -> 1 <= mcs -> 0 <= vf -> 1 <= ccs ->
+  hints_truthful lu ru lk rk ->
+  nbd (sel_a how lk rk) (sel_b how lk rk) ->
+  frame_ok (len lk) lcols (mcs * vf) -> frame_ok (len rk) rcols (mcs * vf) ->
+  NoDup (frame_names (ordered_dest how lu ru lk rk lcols rcols lsuf rsuf)) ->
+  ordered_merge MFixed how lu ru lk rk lcols rcols lsuf rsuf (len lk) (len rk) cs mcs vf ccs <> OutOfFuel.
+Proof. exact MergeAll.ordered_merge_terminates. Qed.
+Print Assumptions ordered_merge_terminates.
+
+(* chunk sizes are unobservable for every variant *)
+Theorem chunk_sizes_unobservable_all :
+  forall how lu ru lk rk lcols rcols lsuf rsuf cs mcs vf ccs cs' mcs' vf' ccs',
+  how = 0 \/ how = 1 \/ how = 2 ->
+  1 <= cs -> 1 <= mcs -> 0 <= vf -> 1 <= ccs -> 1 <= cs' -> 1 <= mcs' -> 0 <= vf' -> 1 <= ccs' ->
+  hints_truthful lu ru lk rk -> nbd (sel_a how lk rk) (sel_b how lk rk) ->
+  chunks_ok (v_kind (sel_variant how lu ru)) cs (sel_a how lk rk) (sel_b how lk rk) ->
+  chunks_ok (v_kind (sel_variant how lu ru)) cs' (sel_a how lk rk) (sel_b how lk rk) ->
+  frame_ok (len lk) lcols (mcs * vf) -> frame_ok (len rk) rcols (mcs * vf) ->
+  frame_ok (len lk) lcols (mcs' * vf') -> frame_ok (len rk) rcols (mcs' * vf') ->
+  NoDup (frame_names (ordered_dest how lu ru lk rk lcols rcols lsuf rsuf)) ->
+  ordered_merge MFixed how lu ru lk rk lcols rcols lsuf rsuf (len lk) (len rk) cs mcs vf ccs
+  = ordered_merge MFixed how lu ru lk rk lcols rcols lsuf rsuf (len lk) (len rk) cs' mcs' vf' ccs'.
+Proof. exact MergeAll.chunk_sizes_unobservable_all. Qed.
+Print Assumptions chunk_sizes_unobservable_all.
+
+(* the hypotheses are satisfiable outside the both-unique variants: how='left' with a truthful right-unique hint
+   (left side trimmed and refilled, left columns copied), and how='inner' with the general generator *)
+Example all_hyps_nonvacuous_right_unique :
+  hints_truthful false true [1;2;2;5] [0;2;3;4] /\
+  nbd (sel_a 0 [1;2;2;5] [0;2;3;4]) (sel_b 0 [1;2;2;5] [0;2;3;4]) /\
+  chunks_ok (v_kind (sel_variant 0 false true)) 3 (sel_a 0 [1;2;2;5] [0;2;3;4]) (sel_b 0 [1;2;2;5] [0;2;3;4]) /\
+  v_writes_l (sel_variant 0 false true) = false /\
+  ordered_merge MFixed 0 false true [1;2;2;5] [0;2;3;4]
+     [([107], CFix [0] [0] [[1];[2];[2];[5]]); ([120;97], CIdx [0;1;1;3;4] [97;99;99;100])]
+     [([105;112], CFix [0] [0] [[10];[20];[30];[40]])] [95;108] [95;114] 4 4 3 2 2 2
+  = Ok [ (N_right_map, map_column [INVALID_INDEX_32; 1; 1; INVALID_INDEX_32]);
+         ([107], CFix [0] [0] [[1];[2];[2];[5]]); ([120;97], CIdx [0;1;1;3;4] [97;99;99;100]);
+         ([105;112], CFix [0] [0] [[0];[20];[20];[0]]) ] /\
+  dest_keys 0 [1;2;2;5] [0;2;3;4] = [1;2;2;5].
+Proof. exact all_hyps_example_ru. Qed.
+
+Example all_hyps_nonvacuous_general :
+  hints_truthful false false [1;1;2;3] [1;3;4] /\
+  nbd (sel_a 2 [1;1;2;3] [1;3;4]) (sel_b 2 [1;1;2;3] [1;3;4]) /\
+  chunks_ok (v_kind (sel_variant 2 false false)) 3 (sel_a 2 [1;1;2;3] [1;3;4]) (sel_b 2 [1;1;2;3] [1;3;4]) /\
+  ordered_merge MFixed 2 false false [1;1;2;3] [1;3;4]
+     [([107], CFix [0] [0] [[1];[1];[2];[3]])] [([107], CFix [0] [0] [[1];[3];[4]])] [95;108] [95;114] 4 3 3 2 2 2
+  = Ok [ (N_left_map, map_column [0;1;3]); (N_right_map, map_column [0;0;1]);
+         ([107;95;108], CFix [0] [0] [[1];[1];[3]]); ([107;95;114], CFix [0] [0] [[1];[1];[3]]) ] /\
+  dest_keys 2 [1;1;2;3] [1;3;4] = [1;1;3].
+Proof. exact all_hyps_example_gen. Qed.
+
 (* ---- the destination holds exactly the rows of the relational join: PARTIAL -----------------------
    ordered_dest (what the streamed path produces, theorem above) = the two join-map fields followed by
    merge_spec: every left column gathered through the left side of join_pairs and every right column
@@ -73,7 +225,8 @@ Proof. vm_compute. reflexivity. Qed.
    of join_pairs (left/inner: left row order, i.e. non-decreasing key order; right: right row order).
    Proved for the variants that write both maps (no unique hint on the b side, and every how='inner').
    Missing (hence _partial): when the b side is unique the a-side columns are copied (chunked_copy) instead of
-   mapped; that the copy equals gathering through [Some 0; ...; Some (n-1)] is left to the correspondence. *)
+   mapped.  SUPERSEDED by streamed_rows_are_join below (extension E4), which proves that half; kept because its
+   column hypothesis (idx_len_ok) is weaker than the frame_wf of the full theorem. *)
 Theorem streamed_rows_are_join_partial :
   forall how lu ru lk rk lcols rcols lsuf rsuf,
   let inv := merge_invalid lu ru (len lk) (len rk) in
@@ -92,6 +245,165 @@ Example streamed_rows_are_join_hyps :
   v_writes_l (sel_variant 1 false true) = true /\ sortedb [1;2;2;4] = true /\ ssortedb [0;2;3;4] = true /\
   len [1;2;2;4] <= merge_invalid false true 4 4.
 Proof. repeat split; vm_compute; congruence. Qed.
+
+(* ==== extension E4 (2): the copied side; the theorem above becomes FULL =========================================
+   When the b side of the selected generator carries a unique hint, _ordered_merge writes no a-side map and copies
+   the a-side columns with chunked_copy (= identity, chunked_copy_is_identity).  If the hint is truthful every a row
+   has exactly one row in the join, the a side of join_pairs is [Some 0; ...; Some (n-1)]
+   (unique_side_pairs_all_rows), and gathering a well-formed column of n rows through that list gives the column back
+   (copy_is_gather_all_rows; indexed columns: offsets start at 0, are sorted and end at |values|, so the column is the
+   encoding of its own entries).  frame_wf = frame_ok without the value-buffer bound. *)
+Theorem copy_is_gather_all_rows :
+  forall c n,
+  match c with
+  | CFix _ _ d => len d = n
+  | CIdx idx vals => wf_indexed idx vals /\ len idx - 1 = n
+  end -> gather_col c (all_rows n) = c.
+Proof. exact gather_all_rows. Qed.
+Print Assumptions copy_is_gather_all_rows.
+
+Theorem unique_side_pairs_all_rows :
+  forall inv L R, len R <= inv -> ssorted R ->
+  map fst (left_pairs (map single L) (map single R) 0) = all_rows (len L).
+Proof. exact left_pairs_fst_all. Qed.
+Print Assumptions unique_side_pairs_all_rows.
+
+Theorem streamed_rows_are_join :
+  forall how lu ru lk rk lcols rcols lsuf rsuf,
+  let inv := merge_invalid lu ru (len lk) (len rk) in
+  how = 0 \/ how = 1 \/ how = 2 ->
+  sorted lk -> sorted rk -> nbd (sel_a how lk rk) (sel_b how lk rk) ->
+  (v_writes_l (sel_variant how lu ru) = false -> ssorted (sel_b how lk rk)) ->
+  len lk <= inv -> len rk <= inv ->
+  frame_wf (len lk) lcols -> frame_wf (len rk) rcols ->
+  ordered_dest how lu ru lk rk lcols rcols lsuf rsuf
+  = map_fields (fst (jmaps how lu ru lk rk inv)) (snd (jmaps how lu ru lk rk inv)) ++
+    merge_spec how [lk] [rk] lcols rcols lsuf rsuf.
+Proof. exact ordered_dest_is_merge_spec_all. Qed.
+Print Assumptions streamed_rows_are_join.
+
+Example streamed_rows_are_join_copy_hyps :
+  v_writes_l (sel_variant 0 false true) = false /\ sortedb [1;2;2;5] = true /\ ssortedb (sel_b 0 [1;2;2;5] [0;2;3;4]) = true /\
+  len [1;2;2;5] <= merge_invalid false true 4 4.
+Proof. repeat split; vm_compute; congruence. Qed.
+
+(* end to end, nothing assumed about C03 or C04: _ordered_merge returns the two join-map fields followed by merge_spec
+   (lengths up to 2^62 rows, the 64-bit marker) *)
+Theorem ordered_merge_is_relational_join :
+  forall how lu ru lk rk lcols rcols lsuf rsuf cs mcs vf ccs,
+  how = 0 \/ how = 1 \/ how = 2 -> 1 <= cs -> 1 <= mcs -> 0 <= vf -> 1 <= ccs ->
+  hints_truthful lu ru lk rk ->
+  nbd (sel_a how lk rk) (sel_b how lk rk) ->
+  chunks_ok (v_kind (sel_variant how lu ru)) cs (sel_a how lk rk) (sel_b how lk rk) ->
+  frame_ok (len lk) lcols (mcs * vf) -> frame_ok (len rk) rcols (mcs * vf) ->
+  NoDup (frame_names (ordered_dest how lu ru lk rk lcols rcols lsuf rsuf)) ->
+  len lk <= INVALID_INDEX_64 -> len rk <= INVALID_INDEX_64 ->
+  ordered_merge MFixed how lu ru lk rk lcols rcols lsuf rsuf (len lk) (len rk) cs mcs vf ccs
+  = Ok (map_fields (fst (jmaps how lu ru lk rk (merge_invalid lu ru (len lk) (len rk))))
+                   (snd (jmaps how lu ru lk rk (merge_invalid lu ru (len lk) (len rk)))) ++
+        merge_spec how [lk] [rk] lcols rcols lsuf rsuf).
+Proof. exact MergeShape.ordered_merge_is_relational_join. Qed.
+Print Assumptions ordered_merge_is_relational_join.
+
+(* ==== extension E4 (3): corollaries of ordered_dest / merge_spec, stated on their own ============================ *)
+(* (a) every destination column has the same length: one row per row of the relational join *)
+Theorem merge_spec_columns_same_length :
+  forall how lkeys rkeys lcols rcols lsuf rsuf f,
+  In f (merge_spec how lkeys rkeys lcols rcols lsuf rsuf) ->
+  col_len (snd f) = len (merge_pairs how lkeys rkeys).
+Proof. exact merge_spec_same_length. Qed.
+Print Assumptions merge_spec_columns_same_length.
+
+Theorem ordered_dest_columns_same_length :
+  forall how lu ru lk rk lcols rcols lsuf rsuf,
+  let inv := merge_invalid lu ru (len lk) (len rk) in
+  how = 0 \/ how = 1 \/ how = 2 ->
+  sorted lk -> sorted rk -> nbd (sel_a how lk rk) (sel_b how lk rk) ->
+  (v_writes_l (sel_variant how lu ru) = false -> ssorted (sel_b how lk rk)) ->
+  len lk <= inv -> len rk <= inv ->
+  frame_wf (len lk) lcols -> frame_wf (len rk) rcols ->
+  forall f, In f (ordered_dest how lu ru lk rk lcols rcols lsuf rsuf) ->
+  col_len (snd f) = len (merge_pairs how [lk] [rk]).
+Proof. exact ordered_dest_same_length. Qed.
+Print Assumptions ordered_dest_columns_same_length.
+
+Theorem ordered_merge_columns_same_length :
+  forall how lu ru lk rk lcols rcols lsuf rsuf cs mcs vf ccs,
+  how = 0 \/ how = 1 \/ how = 2 -> 1 <= cs -> 1 <= mcs -> 0 <= vf -> 1 <= ccs ->
+  hints_truthful lu ru lk rk ->
+  nbd (sel_a how lk rk) (sel_b how lk rk) ->
+  chunks_ok (v_kind (sel_variant how lu ru)) cs (sel_a how lk rk) (sel_b how lk rk) ->
+  frame_ok (len lk) lcols (mcs * vf) -> frame_ok (len rk) rcols (mcs * vf) ->
+  NoDup (frame_names (ordered_dest how lu ru lk rk lcols rcols lsuf rsuf)) ->
+  len lk <= INVALID_INDEX_64 -> len rk <= INVALID_INDEX_64 ->
+  forall d, ordered_merge MFixed how lu ru lk rk lcols rcols lsuf rsuf (len lk) (len rk) cs mcs vf ccs = Ok d ->
+  forall f, In f d -> col_len (snd f) = len (merge_pairs how [lk] [rk]).
+Proof. exact ordered_merge_same_length. Qed.
+Print Assumptions ordered_merge_columns_same_length.
+
+(* (b) rows are in non-decreasing key order.  dest_keys (Spec/MergeSpec.v) reads the key of each row of the join on the
+   side that is never `none`; where both sides are present the two keys agree; a key column carried along as an
+   ordinary column comes out as dest_keys, which is sorted. *)
+Theorem dest_rows_in_key_order :
+  forall how lk rk, how = 0 \/ how = 1 \/ how = 2 -> sorted lk -> sorted rk -> sorted (dest_keys how lk rk).
+Proof. exact dest_keys_sorted. Qed.
+Print Assumptions dest_rows_in_key_order.
+
+Theorem matched_rows_have_equal_keys :
+  forall how lk rk i j, how = 0 \/ how = 1 \/ how = 2 ->
+  In (Some i, Some j) (merge_pairs how [lk] [rk]) ->
+  0 <= i < len lk /\ 0 <= j < len rk /\ nthZ lk i = nthZ rk j.
+Proof. exact merge_pairs_keys_agree. Qed.
+Print Assumptions matched_rows_have_equal_keys.
+
+Theorem left_key_column_is_dest_keys :
+  forall how lk rk z e, how = 0 \/ how = 2 ->
+  gather_col (CFix z e (map single lk)) (map fst (merge_pairs how [lk] [rk]))
+  = CFix z e (map single (dest_keys how lk rk)).
+Proof. exact gather_left_key_column. Qed.
+Print Assumptions left_key_column_is_dest_keys.
+
+Theorem right_key_column_is_dest_keys :
+  forall how lk rk z e, how = 1 \/ how = 2 ->
+  gather_col (CFix z e (map single rk)) (map snd (merge_pairs how [lk] [rk]))
+  = CFix z e (map single (dest_keys how lk rk)).
+Proof. exact gather_right_key_column. Qed.
+Print Assumptions right_key_column_is_dest_keys.
+
+(* in the destination itself: the left key column (how = left / inner) comes out sorted *)
+Theorem ordered_merge_left_key_column_sorted :
+  forall how lu ru lk rk lcols rcols lsuf rsuf cs mcs vf ccs,
+  how = 0 \/ how = 1 \/ how = 2 -> 1 <= cs -> 1 <= mcs -> 0 <= vf -> 1 <= ccs ->
+  hints_truthful lu ru lk rk ->
+  nbd (sel_a how lk rk) (sel_b how lk rk) ->
+  chunks_ok (v_kind (sel_variant how lu ru)) cs (sel_a how lk rk) (sel_b how lk rk) ->
+  frame_ok (len lk) lcols (mcs * vf) -> frame_ok (len rk) rcols (mcs * vf) ->
+  NoDup (frame_names (ordered_dest how lu ru lk rk lcols rcols lsuf rsuf)) ->
+  len lk <= INVALID_INDEX_64 -> len rk <= INVALID_INDEX_64 ->
+  forall d n z e, how = 0 \/ how = 2 ->
+  ordered_merge MFixed how lu ru lk rk lcols rcols lsuf rsuf (len lk) (len rk) cs mcs vf ccs = Ok d ->
+  In (n, CFix z e (map single lk)) lcols ->
+  In (spec_name n (frame_names rcols) lsuf, CFix z e (map single (dest_keys how lk rk))) d /\
+  sorted (dest_keys how lk rk).
+Proof. exact ordered_merge_left_key_sorted. Qed.
+Print Assumptions ordered_merge_left_key_column_sorted.
+
+Theorem ordered_merge_right_key_column_sorted :
+  forall how lu ru lk rk lcols rcols lsuf rsuf cs mcs vf ccs,
+  how = 0 \/ how = 1 \/ how = 2 -> 1 <= cs -> 1 <= mcs -> 0 <= vf -> 1 <= ccs ->
+  hints_truthful lu ru lk rk ->
+  nbd (sel_a how lk rk) (sel_b how lk rk) ->
+  chunks_ok (v_kind (sel_variant how lu ru)) cs (sel_a how lk rk) (sel_b how lk rk) ->
+  frame_ok (len lk) lcols (mcs * vf) -> frame_ok (len rk) rcols (mcs * vf) ->
+  NoDup (frame_names (ordered_dest how lu ru lk rk lcols rcols lsuf rsuf)) ->
+  len lk <= INVALID_INDEX_64 -> len rk <= INVALID_INDEX_64 ->
+  forall d n z e, how = 1 \/ how = 2 ->
+  ordered_merge MFixed how lu ru lk rk lcols rcols lsuf rsuf (len lk) (len rk) cs mcs vf ccs = Ok d ->
+  In (n, CFix z e (map single rk)) rcols ->
+  In (spec_name n (frame_names lcols) rsuf, CFix z e (map single (dest_keys how lk rk))) d /\
+  sorted (dest_keys how lk rk).
+Proof. exact ordered_merge_right_key_sorted. Qed.
+Print Assumptions ordered_merge_right_key_column_sorted.
 
 (* ---- chunk sizes are unobservable on the streamed path (corollary; both-unique variants) -------- *)
 Theorem chunk_sizes_unobservable_both_unique :
